@@ -37,6 +37,7 @@ type applyEv struct {
 	CmdDec []string
 	DB     int
 	Type   string
+	G      int64 // goroutine that applied it: one state machine = one goroutine for its whole life
 }
 
 type cNode struct {
@@ -62,8 +63,10 @@ type cCluster struct {
 	mu          sync.Mutex
 	applied     map[string][]applyEv
 	nApply      atomic.Int64
-	quiesceInfo string       // what the last successful quiescence observation saw
-	inFlight    atomic.Int64 // state machine applies and restores begun and not finished (all nodes of this cluster)
+	quiesceInfo string                    // what the last successful quiescence observation saw
+	inFlight    atomic.Int64              // state machine applies and restores begun and not finished (all nodes of this cluster)
+	oldG        map[string]map[int64]bool // node id -> goroutines of its stopped state machines (their late events are dropped)
+	lateOld     atomic.Int64
 
 	lastKey atomic.Value // string: "<db> <key>" of the entry applied most recently (steers the race lane's readers)
 
@@ -168,7 +171,7 @@ func newCluster(ctx *Ctx, withDirs bool, snapT uint64, snapI time.Duration) *cCl
 		}
 		_ = json.Unmarshal(data, &req)
 		h := sha1.Sum(data)
-		ev := applyEv{Index: idx, Sum: hex.EncodeToString(h[:6]), Cmd: req.CMD, DB: req.Database, Type: req.Type}
+		ev := applyEv{Index: idx, Sum: hex.EncodeToString(h[:6]), Cmd: req.CMD, DB: req.Database, Type: req.Type, G: goid()}
 		// arguments travel quoted (byte-safe encoding); keep the raw form too in case they do not
 		ev.CmdDec = make([]string, len(req.CMD))
 		for k, a := range req.CMD {
@@ -183,6 +186,11 @@ func newCluster(ctx *Ctx, withDirs bool, snapT uint64, snapI time.Duration) *cCl
 			ev.CmdDec = ev.Cmd
 		}
 		c.mu.Lock()
+		if c.oldG[id][ev.G] {
+			c.mu.Unlock()
+			c.lateOld.Add(1)
+			return
+		}
 		c.applied[id] = append(c.applied[id], ev)
 		c.mu.Unlock()
 		c.nApply.Add(1)
@@ -245,6 +253,17 @@ func (c *cCluster) startNode(n *cNode) bool {
 		n.inc++
 		c.applied[fmt.Sprintf("%s(incarnation %d)", n.id, n.inc)] = evs
 		delete(c.applied, n.id)
+		// the stopped state machine may still be finishing its last entries when the new one (same id) begins:
+		// its goroutines are known, their late events belong to the old incarnation
+		if c.oldG == nil {
+			c.oldG = map[string]map[int64]bool{}
+		}
+		if c.oldG[n.id] == nil {
+			c.oldG[n.id] = map[int64]bool{}
+		}
+		for _, e := range evs {
+			c.oldG[n.id][e.G] = true
+		}
 	}
 	c.mu.Unlock()
 	clk := c.clk
